@@ -79,7 +79,7 @@ MANIFEST = dict(
 )
 
 IMPORTS = ['Coq.Lists.List', 'Coq.NArith.NArith', 'SV.Fmt.VpkDir', 'SV.SM.Vpk', 'SV.Fmt.VpkArchName', 'SV.SM.VpkCorr', 'SV.Gen.VpkPlace_gen',
-           'SV.Gen.VpkArchName_gen', 'SV.Fmt.VpkNullStr', 'SV.Gen.VpkNullStr_gen', 'SV.SM.VpkNested', 'SV.Gen.VpkNested_gen', 'SV.SM.VpkApi', 'SV.Gen.VpkApi_gen', 'SV.SM.VpkNestedMap', 'SV.SM.VpkPlace', 'SV.Fmt.VpkNameJoin', 'SV.Gen.VpkNames_gen', 'SV.Fmt.VpkDirProg', 'SV.Fmt.VpkDirRead', 'SV.Gen.VpkDirProg_gen', 'SV.SM.VpkPlaceTable']
+           'SV.Gen.VpkArchName_gen', 'SV.Fmt.VpkNullStr', 'SV.Gen.VpkNullStr_gen', 'SV.SM.VpkNested', 'SV.Gen.VpkNested_gen', 'SV.SM.VpkApi', 'SV.Gen.VpkApi_gen', 'SV.SM.VpkNestedMap', 'SV.SM.VpkPlace', 'SV.Fmt.VpkNameJoin', 'SV.Gen.VpkNames_gen', 'SV.Fmt.VpkDirProg', 'SV.Fmt.VpkDirRead', 'SV.Gen.VpkDirProg_gen', 'SV.SM.VpkPlaceTable', 'SV.SM.VpkGenMachine']
 PRE = 'Import ListNotations. Open Scope N_scope.\n'
 
 R_OK, R_RO, R_EXISTS, R_MISSING, R_BADNAME, R_BADIDX, R_BADDIR, R_EXC = 0, 1, 2, 3, 4, 5, 6, 9
@@ -1067,28 +1067,37 @@ def corr_machine(ck: Ck) -> None:
             tr += [s['code'], len(o), sum(d[0] + d[1] for d, _ in o.values()) % 2**32, int(all(v for _, v in o.values()))]
         fin = coq_list(f'({c_key(k)}, ({c_dg(d)}, {"true" if v else "false"}))' for k, (d, v) in sorted(got['steps'][-1]['obs'].items()))
         ars = coq_list(f'({i}, {c_dg(dg(b))})' for i, b in sorted(got['archs'].items()))
-        lits.append(f'({c_cfg(case["cfg"])}, {coq_list(cops)}, {coq_list(str(x) for x in tr)}, {fin if fin != "[]" else "@nil obs_t"}, '
-                    f'{c_dg(dg(got["disk"]))}, {ars if ars != "[]" else "@nil (N * (N * N))"})')
+        plain = not any(o[0] in ('exit', 'reload') for o in case['ops'])
+        if plain:       # plain histories run through the machine assembled from the generated objects (gstep), the others through xstep
+            cops = [c_op(o) for o in case['ops']]
+        lits.append((plain, f'({c_cfg(case["cfg"])}, {coq_list(cops)}, {coq_list(str(x) for x in tr)}, {fin if fin != "[]" else "@nil obs_t"}, '
+                     f'{c_dg(dg(got["disk"]))}, {ars if ars != "[]" else "@nil (N * (N * N))"})'))
         kept.append(case)
+        ck.hist('machine_model', 'generated machine (gstep over placement table + dirfile programs)' if plain else 'xstep over the __exit__ table')
         ck.count('corr_histories')
         if len(got['steps'][-1]['obs']) >= 1:
             ck.seen(('corr', repr(case)))
     bad: list[tuple[int, int]] = []
     fn = ('(fun c : vcfg * list xop * list N * list obs_t * (N * N) * list (N * (N * N)) => '
           'let \'(cf, ops, tr, fin, dsk, ars) := c in check_xcase g_exit_table cf ops tr fin dsk ars)')
-    for lo in range(0, len(lits), 250):
-        part = lits[lo:lo + 250]
-        vals = ck.coq_eval(IMPORTS, [f'map {fn} {coq_list(part)}'], name='vpkcorr', preamble=PRE)
-        if vals is None:
-            ck.obligation('correspondence:machine', False, 'model could not be evaluated')
-            ck.tie_broken.append('correspondence VPK machine: model evaluation failed')
-            return
-        res = parse_coq_N_list(vals[0])
-        bad += [(lo + i, r) for i, r in enumerate(res) if r != 0]
+    gfn = ('(fun c : vcfg * list op * list N * list obs_t * (N * N) * list (N * (N * N)) => '
+           'let \'(cf, ops, tr, fin, dsk, ars) := c in check_gcase g_place_table g_wprog g_rprog cf ops tr fin dsk ars)')
+    for plain, f in ((True, gfn), (False, fn)):
+        idx = [i for i, (pl, _) in enumerate(lits) if pl == plain]
+        for lo in range(0, len(idx), 250):
+            part = idx[lo:lo + 250]
+            vals = ck.coq_eval(IMPORTS, [f'map {f} {coq_list(lits[i][1] for i in part)}'], name='vpkcorr', preamble=PRE)
+            if vals is None:
+                ck.obligation('correspondence:machine', False, 'model could not be evaluated')
+                ck.tie_broken.append('correspondence VPK machine: model evaluation failed')
+                return
+            res = parse_coq_N_list(vals[0])
+            bad += [(i, r) for i, r in zip(part, res) if r != 0]
     what = {1: 'outside the model (write_dirfile overflow, failing load_dirfile() on the same object, __exit__ table not understood)', 2: 'per-operation codes/summaries', 3: 'final per-file contents/verify',
             4: '_dir file bytes (length, crc32)', 5: 'archive files (length, crc32)'}
     ck.obligation('correspondence:machine', not bad,
-                  f'{len(lits)} histories, model SM/Vpk.v + SM/VpkApi.v xrun over the translated __exit__ table (vm_compute, real CRC-32) vs srctools.vpk on temp directories: '
+                  f'{len(lits)} histories ({sum(1 for pl, _ in lits if pl)} plain ones through SM/VpkGenMachine.v gstep over the translated placement table and write_dirfile / load_dirfile programs, '
+                  f'the others through SM/VpkApi.v xrun over the translated __exit__ table; vm_compute, real CRC-32) vs srctools.vpk on temp directories: '
                   f'{len(bad)} disagreements' + (f'; first: {what.get(bad[0][1])}' if bad else ''))
     if kept:
         ck.sample({'history': kept[min(12, len(kept) - 1)], 'compared': 'codes, per-file (len,crc32,verify), _dir bytes, archives'})
